@@ -63,6 +63,8 @@ def resolve_roles(prog, sl):
 
 def comps(v, is_root):
     """components of a path value below the root: join(join(root,'a'), x) -> ('a', x)"""
+    if v is None:
+        return None
     v = strip(v)
     if is_root(v):
         return ()
